@@ -26,8 +26,7 @@ ASSUMPTIONS = [
     "[OFFSET m ROWS] [FETCH NEXT n ROWS ONLY]",
     "no MySQL/PostgreSQL/SQL Server/Oracle engine: those grammars are the trusted base; SQLite is executed",
 ]
-ANCHORS = ["QueryBuilder._apply_pagination", "QueryBuilder._limit_sql", "QueryBuilder._offset_sql", "_SetOperation._limit_sql",
-           "_SetOperation._offset_sql", "MSSQLQueryBuilder._apply_pagination", "MSSQLQueryBuilder._offset_sql",
+ANCHORS = ["QueryBuilder._apply_pagination", "QueryBuilder._limit_sql", "QueryBuilder._offset_sql", "_SetOperation._pagination_sql", "MSSQLQueryBuilder._apply_pagination", "MSSQLQueryBuilder._offset_sql",
            "MSSQLQueryBuilder._limit_sql", "OracleQueryBuilder._offset_sql", "OracleQueryBuilder._limit_sql",
            "QueryBuilder.slice", "QueryBuilder.__getitem__", "MSSQLQueryBuilder.top", "MSSQLQueryBuilder.fetch_next"]
 WORKERS = {"quick": 16, "thorough": 16}
@@ -339,9 +338,14 @@ def run_case(case, mon):
         return  # (the window column would change the number of select items of one operand)
     base = base_query(d, case["order"], case["sur"], reg, t)
     if pos == "set-operation":
+        # the ORDER BY under test is the set operation's own; with the "groupby" surrounding it is the *first operand* that is
+        # ordered instead (inside its brackets), which must not count as an ordering of the set operation
+        operand_ordered = case["order"] and case["sur"] == "groupby" and DIALECT_OF[d] not in ("mysql", "sqlite")
+        base = base_query(d, operand_ordered, case["sur"], reg, t)
         so0 = base.union(reg[d].from_(t).select(t.b).where(t.b < 999))
-        if case["order"]:
+        if case["order"] and not operand_ordered:
             so0 = so0.orderby(t.id)
+        case = dict(case, order=case["order"] and not operand_ordered)
         if case["setter"] not in ("limit_offset", "offset_limit"):
             return
         so = so0
